@@ -31,18 +31,20 @@ def key_hash(k):
     return b58.check_encode(b58.P['expr'], hashlib.blake2b(packed, digest_size=32).digest())
 
 
-# model value v in 1..MaxVal is the nat v - 1, so that the falsy Python value 0 is among the bound values
+# model value 1 is the empty string (a falsy Python value that is nevertheless a binding), 2 is "w"
+VAL = {1: '', 2: 'w'}
+UNVAL = {'': 1, 'w': 2}
 OPS = {
     'get': lambda k, v: 'DUP ; PUSH string "%s" ; GET ; DIG 2 ; SWAP ; CONS ; SWAP' % k,
     'mem': lambda k, v: 'DUP ; PUSH string "%s" ; MEM ; DIG 3 ; SWAP ; CONS ; DUG 2' % k,
-    'upd': lambda k, v: 'PUSH (option nat) %s ; PUSH string "%s" ; UPDATE' % ('(Some %d)' % (v - 1) if v else 'None', k),
-    'gau': lambda k, v: 'PUSH (option nat) %s ; PUSH string "%s" ; GET_AND_UPDATE ; DIG 2 ; SWAP ; CONS ; SWAP' % ('(Some %d)' % (v - 1) if v else 'None', k),
+    'upd': lambda k, v: 'PUSH (option string) %s ; PUSH string "%s" ; UPDATE' % ('(Some "%s")' % VAL[v] if v else 'None', k),
+    'gau': lambda k, v: 'PUSH (option string) %s ; PUSH string "%s" ; GET_AND_UPDATE ; DIG 2 ; SWAP ; CONS ; SWAP' % ('(Some "%s")' % VAL[v] if v else 'None', k),
 }
 
 
 def script(hist):
     body = ' ; '.join(OPS[op[0]](op[1], op[2] if len(op) > 2 else None) for op in hist)
-    return ('parameter unit ; storage (pair (big_map string nat) (pair (list (option nat)) (list bool))) ; '
+    return ('parameter unit ; storage (pair (big_map string string) (pair (list (option string)) (list bool))) ; '
             'code { CDR ; UNPAIR 3 ; %s PAIR 3 ; NIL operation ; PAIR }' % (body + ' ; ' if body else ''))
 
 
@@ -51,11 +53,11 @@ def run_impl(mode, chain, literal, hist):
     from pytezos.michelson.repl import Interpreter
     from pytezos.rpc.shell import ShellQuery
     from ..bigmapnode import BigMapNode
-    node = BigMapNode({BM_ID: {key_hash(k): {'int': str(v - 1)} for k, v in chain.items() if v}})
+    node = BigMapNode({BM_ID: {key_hash(k): {'string': VAL[v]} for k, v in chain.items() if v}})
     if mode == 'existing':
         bm = {'int': str(BM_ID)}
     else:
-        bm = [{'prim': 'Elt', 'args': [{'string': k}, {'int': str(v - 1)}]} for k, v in sorted(literal.items()) if v > 0]
+        bm = [{'prim': 'Elt', 'args': [{'string': k}, {'string': VAL[v]}]} for k, v in sorted(literal.items()) if v > 0]
     storage = {'prim': 'Pair', 'args': [bm, {'prim': 'Pair', 'args': [[], []]}]}
     ops, st, lazy_diff, stdout, err = Interpreter.run_code(parameter={'prim': 'Unit'}, storage=storage, script=michelson_to_micheline(script(hist)),
                                                           shell=ShellQuery(node=node))
@@ -79,7 +81,7 @@ def compare(ctx, mode, chain, hist, obs, flat, literal):
         ctx.mismatch('C15:run:raises', '%s: run_code failed: %s' % (desc, str(err)[:300]), case)
         return False
     bm, gets, mems = flat_args(st)
-    got_gets = [None if g['prim'] == 'None' else int(g['args'][0]['int']) + 1 for g in reversed(gets)]
+    got_gets = [None if g['prim'] == 'None' else UNVAL[g['args'][0]['string']] for g in reversed(gets)]
     got_mems = [m['prim'] == 'True' for m in reversed(mems)]
     want_gets = [o[1] if o[1] else None for o in obs if o[0] == 'get']
     want_mems = [o[1] for o in obs if o[0] == 'mem']
@@ -110,7 +112,7 @@ def compare(ctx, mode, chain, hist, obs, flat, literal):
             ctx.mismatch('C15:diff:duplicate-entry', '%s: key %r occurs twice in the diff %s' % (desc, k, json.dumps(d['diff']['updates'])), case)
             ok = False
         seen.add(k)
-        result[k] = int(u['value']['int']) + 1 if 'value' in u else 0
+        result[k] = UNVAL[u['value']['string']] if 'value' in u else 0
     if {k: v for k, v in result.items()} != flat:
         ctx.mismatch('C15:diff:apply', '%s: diff %s applied to chain gives %s, final dictionary is %s' % (desc, json.dumps(d['diff'].get('updates')), result, flat), case)
         ok = False
@@ -146,7 +148,7 @@ def run(ctx):
                 'every observation equals the dictionary\'s, and the diff the layer stands for applied to the chain gives the dictionary. Leg B: each history is compiled into a '
                 'contract run by Interpreter.run_code against a simulated node serving the on-chain entries (real ShellQuery path); GET/MEM results, the emitted lazy diff '
                 'applied to the chain contents, its action/id and each key_hash (recomputed with hashlib) are compared; non-trivial = history has an update')
-    ctx.assumptions = ['string keys, nat values', 'the exact shape of the diff is not prescribed: only its effect, action, id and key hashes', 'key_hash recomputed independently (own PACK of a string + blake2b + base58)']
+    ctx.assumptions = ['string keys, string values (the empty string included)', 'the exact shape of the diff is not prescribed: only its effect, action, id and key hashes', 'key_hash recomputed independently (own PACK of a string + blake2b + base58)']
     configs = [(['a', 'b'], 3, None)] if ctx.quick else [(['a', 'b', 'c'], 3, None), (['a', 'b'], 4, 2)]
     for keys, depth, ninit in configs:
         run_config(ctx, keys, depth, ninit)
